@@ -73,6 +73,7 @@ def _model_outputs(m):
                         if pt[0] == 'opt':
                             outs['%s[%d].%s?none' % (name, k, fname)] = \
                                 smt.App('%s.%s?none' % (cls, fname), [e], BOOL)
+    outs.update(m.extra_outputs)
     return outs
 
 
@@ -117,7 +118,7 @@ def run_path(env, contract, script, explorer, prune=True):
 
 def verify_function(env, contract, budget_ms=10000, prune=True, log=None):
     t0 = time.time()
-    res = FnResult(contract.target)
+    res = FnResult(contract.label)
     ex = Explorer()
     paths = []
     try:
